@@ -32,6 +32,8 @@ type Report struct {
 	unbound     []string
 	lines       []string
 	baseline    map[string]bool
+	slow        map[string]bool
+	knownHit    []string
 	missing     []string
 	known       []Finding
 	// replayUntil: no new replay attempt is started after this instant (the
@@ -52,9 +54,16 @@ type failure struct {
 func buildReport(eng *Engine, prop, tier string, seed int, pc *PropCfg, frs []*FuncResult, verif string, verbose bool) *Report {
 	r := &Report{eng: eng, prop: prop, tier: tier, seed: seed, pc: pc, frs: frs, verbose: verbose}
 	r.baseline = map[string]bool{}
+	r.slow = map[string]bool{}
 	if data, err := os.ReadFile(filepath.Join(verif, "baseline", prop+".obligations")); err == nil {
 		for _, ln := range strings.Split(string(data), "\n") {
 			if f := strings.Fields(ln); len(f) > 0 && !strings.HasPrefix(ln, "#") {
+				if f[0] == "slow" && len(f) > 1 {
+					// discharged on the unchanged tree, but slowly: a timeout of
+					// this obligation is reported as undecided, never as a violation
+					r.slow[f[1]] = true
+					continue
+				}
 				r.baseline[f[0]] = true
 			}
 		}
@@ -84,6 +93,19 @@ func buildReport(eng *Engine, prop, tier string, seed int, pc *PropCfg, frs []*F
 				}
 				continue
 			}
+			isKnown := false
+			for _, k := range r.known {
+				if k.Status == "known" && k.Obligation == o.Name && o.Status != "unsat" {
+					isKnown = true
+				}
+			}
+			if isKnown {
+				// a recorded known finding: reported as such, and not part of what
+				// this run counts as its obligations
+				r.failed = append(r.failed, &failure{o: o, fr: fr, reason: "known finding (" + o.Status + ")"})
+				r.knownHit = append(r.knownHit, o.Name)
+				continue
+			}
 			r.obligations++
 			switch o.Status {
 			case "unsat":
@@ -91,7 +113,7 @@ func buildReport(eng *Engine, prop, tier string, seed int, pc *PropCfg, frs []*F
 			case "sat":
 				r.failed = append(r.failed, &failure{o: o, fr: fr, reason: "refuted by " + o.Solver})
 			default:
-				if r.baseline[o.Name] || o.Top {
+				if r.baseline[o.Name] || (o.Top && !r.slow[o.Name]) {
 					r.failed = append(r.failed, &failure{o: o, fr: fr, reason: "no longer discharged (" + o.Status + ")"})
 				} else {
 					r.undecided = append(r.undecided, o)
@@ -177,8 +199,10 @@ func (r *Report) finish(verif string, writeBase bool, wall float64, writeEvidenc
 		var names []string
 		for _, fr := range r.frs {
 			for _, o := range fr.Obls {
-				if !o.Cover && o.Status == "unsat" && o.Secs < 5 {
+				if !o.Cover && o.Status == "unsat" && o.Secs < 5 && !o.Retried {
 					names = append(names, o.Name)
+				} else if !o.Cover && o.Status == "unsat" {
+					names = append(names, "slow "+o.Name)
 				}
 			}
 		}
@@ -316,6 +340,10 @@ func (r *Report) writeEvidence(verif, level string, wall float64, violations int
 	}
 	if level != "proof" {
 		cov["explanation"] = "not every obligation was discharged on this run (see failed/undecided/unsupported/unbound); level recorded as 'other'"
+	}
+	if len(r.knownHit) > 0 {
+		cov["known_findings"] = r.knownHit
+		cov["known_findings_note"] = "obligations listed in /verif/known_findings.jsonl as genuine unrepaired defects: they failed on this run as recorded, are reported as KNOWN-FINDING lines and are not counted in obligations/discharged"
 	}
 	if len(samples) == 0 {
 		cov["samples"] = []any{"no obligations"}
